@@ -141,6 +141,8 @@ def resolve(vm, callee, subst):
         selfty = ci.selfty; head = type_head(selfty)[0]
         # user hook by shape
         cands = mir.by_impl.get((ci.trait, head, ci.method), [])
+        # most specific first: impls whose trait arguments mention no impl generic (`From<Array> for Val` before `From<S> for Val`)
+        cands = sorted(cands, key=lambda f: sum(1 for ta in f.impl.trait_args if any(re.search(r'\b' + re.escape(g) + r'\b', ta) for g in f.impl.generics)))
         for f in cands:
             out = {}
             im = f.impl
